@@ -20,6 +20,11 @@ def entryExitInControlBlock : Bool := true
     `C20:panic:workflow-compile:branch-end-undeclared`) -/
 def wfBranchEndsChecked : Bool := true
 
+/-- `Workflow.compile` replays the recorded inputs node by node in declaration order (the good
+    value; the unrepaired source ranges over the Go map `wf.workflowNodes`: finding
+    `C20:nondeterministic:workflow-compile:input-replay-order`) -/
+def wfInputsReplayedInDeclaredOrder : Bool := true
+
 /-- fields of `g` that `compile` may assign (only the flag) -/
 def compileAssigns : List String := ["compiled"]
 
